@@ -10,9 +10,9 @@ for d in seeded/$GLOB/; do
   name=$(basename $d); prop=${name%%-*}
   [ -f "$d/patch.diff" ] || continue
   lc=$(echo $prop | tr 'A-Z' 'a-z'); [ -d harness/$lc ] || { echo "$name no-check"; continue; }
+  exec 6> .work/repo.lock; flock -x 6
   ( cd /repo; git diff --quiet ) || { echo "repo dirty, stopping"; exit 9; }
-  if ! git -C /repo apply --check "/verif/$d/patch.diff" 2>/dev/null; then v="patch-does-not-apply"; sig=""; else
-    exec 6> .work/repo.lock; flock -x 6
+  if ! git -C /repo apply --check "/verif/$d/patch.diff" 2>/dev/null; then v="patch-does-not-apply"; sig=""; flock -u 6; else
     git -C /repo apply "/verif/$d/patch.diff"
     VERIF_SEED_SWEEP=1 VERIF_BUILD_ONLY=1 VERIF_BIN="seed-$name" ./run.sh $prop $TIER > /tmp/seed-$name.build 2>&1; brc=$?
     git -C /repo checkout -- . ; git -C /repo clean -fdq
